@@ -170,9 +170,10 @@ pub fn analyze(case: &Case, run: &Run) -> Analysis {
               }
             }
           }
-          an.stale_before_bu.insert(si, stale);
+          // With several bottom-up builds in one session the first one defines what was stale beforehand.
+          an.stale_before_bu.entry(si).or_insert(stale);
           acc.bottom_up_build(report, b.log.clone(), &b.result);
-          an.bu_executed.insert(si, acc.facts.executed.iter().cloned().collect());
+          an.bu_executed.entry(si).or_default().extend(acc.facts.executed.iter().cloned());
           // Later requires in this session are judged against the state the bottom-up build left.
           model = Eval::new(prog, b.state_after.clone());
         }
@@ -180,7 +181,8 @@ pub fn analyze(case: &Case, run: &Run) -> Analysis {
       for f in acc.findings[findings_before..].iter() {
         an.findings.push(Tagged { session: si, build: bi, tag: f.tag, msg: format!("session {} build {} ({:?}): {}", si, bi, b.kind, f.msg) });
       }
-      let facts = acc.facts.clone();
+      let mut facts = acc.facts.clone();
+      if let BuildKind::BottomUp(report) = &b.kind { facts.bu_over_report = report.iter().any(|r| !sess.changed_before.contains(r)); }
       an.builds.push(BuildInfo { session: si, build: bi, kind: b.kind.clone(), executed: facts.executed.clone(), facts, panic: panic.clone(), known_before, completed_before });
       if let Some(k) = &panic {
         an.findings.push(Tagged { session: si, build: bi, tag: match k {
